@@ -17,7 +17,7 @@ class C17Tables(Scenario):
                     "universe": rng.between(7, 12), "param": rng.between(1, 10),
                     # an object of the same class lives (long enough to evict / cross the threshold) and dies before
                     # the subject is built; CPython hands its address to the subject
-                    "prior_obj": rng.chance(1, 4)})
+                    "prior_obj": rng.chance(1, 4), "neighbour": rng.chance(1, 6)})
         if rng.chance(1, 60):
             # tables of several hundred entries, a sketch wide enough that estimates are mostly exact
             cfg.update({"sizing": {"width": rng.choice((1500, 4000)), "depth": rng.between(1, 2)},
